@@ -569,3 +569,174 @@ def rule_t6(prog, rep, rid='T6'):
                               '%s(len %d, len %d) with the common prefix comparing %s returns %s (memcmp length %s); expected sign %d: '
                               'keys that are prefixes of one another are mis-ordered' % (
                                   f.name, n1, n2, {-1: 'less', 0: 'equal', 1: 'greater'}[m], r, seen_len[:1], want))
+
+
+# --------------------------------------------------------------------------------------
+# T5c / T7 / T8 (added after seeded changes C04-1..3 were missed)
+
+def rule_t5c(prog, rep, rid='T5c'):
+    """A function that records parent links while descending (x->child->next = x) hands out - directly or via the
+    caller's cursor - a position from which getnext() climbs up to the root; the root's parent link must therefore have
+    been cleared on EVERY path before the first such store, not only before a climb inside the same function."""
+    rep.rule(rid, 'before the first parent-link store of a descent the root\'s parent link is cleared on every path (the cursor handed '
+                  'out is later climbed by getnext)')
+    resetters = set(rep.notes.get('root_parent_link_resetters') or [])
+    for f in sorted(prog.funcs_in(UNIT), key=lambda x: x.line or 0):
+        stores = []
+        for n in f.cfg.nodes:
+            if n.id not in f.cfg.reachable or not isinstance(n.ast, dict) or n.kind == 'macro':
+                continue
+            for x in walk(n.ast):
+                if x.get('kind') == 'BinaryOperator' and x.get('opcode') == '=':
+                    l = canon(children(x)[0])
+                    r = access_path(children(x)[1])
+                    if r and (l == '%s->left->next' % r or l == '%s->right->next' % r):
+                        stores.append((n, x))
+        if not stores:
+            continue
+
+        def is_reset(m):
+            if not isinstance(m.ast, dict) or m.kind == 'macro':
+                return False
+            for y in walk(m.ast):
+                if y.get('kind') == 'BinaryOperator' and y.get('opcode') == '=':
+                    l = strip(children(y)[0])
+                    if l.get('kind') == 'MemberExpr' and l.get('name') == 'next' and canon(l).endswith('->root->next') and is_null(children(y)[1]):
+                        return True
+                if y.get('kind') == 'CallExpr' and prog.callee_name(y) in resetters:
+                    return True
+            return False
+
+        def skip(m, lab):
+            if m.kind == 'cond' and isinstance(m.ast, dict):
+                t = cond_null_test(m.ast)
+                if t and t[0].endswith('->next') and not t[0].endswith('root->next'):
+                    r0 = t[0].split('->')[0]
+                    if any(p.get('name') == r0 for p in f.params):
+                        return (lab == 'T') != t[1]          # continuation of a walk (exempt by contract)
+                if t and t[0].endswith('->root') and ((lab == 'T') == t[1]):
+                    return True                               # empty tree
+            return False
+        rep.instance(rid)
+        bad = None
+        for (n, x) in stores:
+            path = _path_to(f.cfg, n, is_reset, skip)
+            if path is not None:
+                bad = (n, x)
+                break
+        rep.oblige(rid, bad is None, {'function': f.name, 'parent_link_stores': len(stores)})
+        if bad:
+            rep.violation(rid, f, bad[1].get('_line'), 'descent-without-reset',
+                          '%s records parent links (%s at line %s) on a path on which the root\'s parent link was not cleared first: the '
+                          'position it hands out is later climbed by getnext(), which then follows a stale link above the root'
+                          % (f.name, canon(bad[1]), bad[1].get('_line')))
+
+
+def rule_t7(prog, rep, rid='T7'):
+    """End of a walk advances the traversal epoch: every path of the walker that leaves its traversal loop at the end and
+    reports `no more elements` passes the epoch-advancing helper."""
+    rep.rule(rid, 'the walker advances the traversal id when a walk ends (every end-of-walk exit passes reset_iterator / ++tid)')
+    f = prog.need_func('qtreetbl_getnext')
+    bumpers = set()
+    for g in prog.funcs_in(UNIT):
+        if any(x.get('kind') == 'UnaryOperator' and x.get('opcode') == '++' and canon(children(x)[0]).endswith('->tid') for x in walk(g.body)):
+            bumpers.add(g.name)
+    rep.notes['epoch_advancing_functions'] = sorted(bumpers)
+
+    def bumps(m):
+        if not isinstance(m.ast, dict) or m.kind == 'macro':
+            return False
+        return any((y.get('kind') == 'CallExpr' and prog.callee_name(y) in bumpers) or
+                   (y.get('kind') == 'UnaryOperator' and y.get('opcode') == '++' and canon(children(y)[0]).endswith('->tid'))
+                   for y in walk(m.ast))
+    # the traversal loop: the loop whose body steps through ->left / ->right / ->next of a cursor
+    from .hashrules import _loop_nodes
+    rep.instance(rid)
+    bad = None
+    for (head, loop) in f.cfg.loops:
+        body = _loop_nodes(f.cfg, head)
+        # exits of the loop through its condition being false
+        exits = [s for i in body for (s, lab) in f.cfg.nodes[i].succs if s.id not in body and f.cfg.nodes[i].kind == 'cond' and lab == 'F'
+                 and f.cfg.nodes[i].line == head.line]
+        for e in exits:
+            # from e to the function exit without a bump?
+            seen = set()
+            work = [e]
+            while work:
+                m = work.pop()
+                if m is f.cfg.exit:
+                    bad = e
+                    break
+                if m.id in seen or bumps(m):
+                    continue
+                seen.add(m.id)
+                for (s, _l) in m.succs:
+                    work.append(s)
+            if bad:
+                break
+    rep.oblige(rid, bad is None, {'function': f.name})
+    if bad is not None:
+        rep.violation(rid, f, bad.line, 'end-of-walk', 'qtreetbl_getnext can finish a walk without advancing the traversal id: every node then '
+                      'still carries the id the next search/continuation is given, so that continuation visits nothing')
+
+
+def rule_t8(prog, rep, rid='T8'):
+    """A value copy may legitimately be NULL (empty value): a NULL copy counts as an allocation failure only together with a
+    non-empty source."""
+    rep.rule(rid, 'a NULL value copy is treated as an allocation failure only when the source value is non-empty')
+    for f in sorted(prog.funcs_in(UNIT), key=lambda x: x.line or 0):
+        copies = {}
+        for x in walk(f.body):
+            if x.get('kind') == 'BinaryOperator' and x.get('opcode') == '=':
+                r = strip(children(x)[1])
+                if r.get('kind') == 'CallExpr' and prog.callee_name(r) == 'qmemdup':
+                    a = children(r)[1:]
+                    if len(a) >= 2 and canon(a[1]).endswith('datasize'):
+                        copies[canon(children(x)[0])] = (canon(a[0]), canon(a[1]))
+            elif x.get('kind') == 'VarDecl':
+                from .expr import var_init
+                init = var_init(x)
+                if init is not None and strip(init).get('kind') == 'CallExpr' and prog.callee_name(strip(init)) == 'qmemdup':
+                    a = children(strip(init))[1:]
+                    if len(a) >= 2 and canon(a[1]).endswith('datasize'):
+                        copies[x.get('name')] = (canon(a[0]), canon(a[1]))
+        for dst, (src, size) in sorted(copies.items()):
+            # conditions null-testing dst whose null branch reaches `errno = ENOMEM` without testing the source
+            for n in f.cfg.nodes:
+                if n.kind != 'cond' or not isinstance(n.ast, dict) or n.id not in f.cfg.reachable:
+                    continue
+                t = cond_null_test(n.ast)
+                if not t or canon_path(t[0]) != dst:
+                    continue
+                rep.instance(rid)
+                nulllab = 'T' if t[1] else 'F'
+                start = [s for (s, lab) in n.succs if lab == nulllab]
+                bad = False
+                seen = set()
+                work = list(start)
+                while work and not bad:
+                    m = work.pop()
+                    if m.id in seen or m is f.cfg.exit:
+                        continue
+                    seen.add(m.id)
+                    if m.kind == 'cond' and isinstance(m.ast, dict):
+                        c = canon(m.ast)
+                        if size in c or src in c:
+                            continue        # the source is consulted before deciding
+                    if isinstance(m.ast, dict) and m.kind == 'act' and any(
+                            y.get('kind') == 'BinaryOperator' and y.get('opcode') == '=' and
+                            ('errno' in canon(children(y)[0])) and int_value(children(y)[1]) not in (0, None)
+                            for y in walk(m.ast)):
+                        bad = True
+                        break
+                    for (s, _l) in m.succs:
+                        work.append(s)
+                rep.oblige(rid, not bad, {'function': f.name, 'copy': '%s = qmemdup(%s, %s)' % (dst, src, size)})
+                if bad:
+                    rep.violation(rid, f, n.line, 'nullcopy:%s' % dst,
+                                  '%s: `%s == NULL` alone leads to the ENOMEM failure exit, but qmemdup(%s, %s) also returns NULL for an '
+                                  'empty value: entries with empty values are reported as not available' % (f.name, dst, src, size))
+
+
+def canon_path(p):
+    return p
